@@ -956,9 +956,9 @@ def run(ck):
         if quick:
             # every k with the basic histories, the longer ones on a rotating subset of k
             for j, k in enumerate(ks):
-                for hn in ("resume", "clear", "clear-plain"):
+                for hn in ("resume", "clear-plain"):
                     jobs.append((p, seeds[p], hn, k, K, hs[hn](k, K)))
-                rest = [n for n in names if n not in ("resume", "clear", "clear-plain", "solve")]
+                rest = [n for n in names if n not in ("resume", "clear-plain", "solve")]
                 for hn in (rest[j % len(rest)], rest[(j + 5) % len(rest)]):
                     jobs.append((p, seeds[p], hn, k, K, hs[hn](k, K)))
         else:
